@@ -233,7 +233,8 @@ PROPS = {
     },
     "C18": {
         "pkg": "c18",
-        "stages": [{"run": "^TestProp$", "quick": (10000, 8), "thorough": (60000, 16)}],
+        "stages": [{"run": "^TestProp$", "quick": (10000, 8), "thorough": (60000, 16)},
+                   {"run": "^TestPropProxied$", "quick": (150, 4), "thorough": (2000, 16), "timeout": {"quick": 900, "thorough": 5400}}],
         "technique": "property-based testing (rapid): generated RPC scripts x protocol x option subsets with recording interceptors and stats handler; event-grammar oracle plus an options-on/off metamorphic relation",
         "level_text": "Generated-input search over unary and the three streaming shapes on HTTP transcoding, gRPC and gRPC-web, message sizes from empty upward (incl. < 5 bytes), "
                       "successful and failing handlers and every subset of {unary interceptor, stream interceptor, stats handler} with pass-through, reply-replacing, error-replacing and "
